@@ -16,6 +16,9 @@ the way a foreign caller does.  Three exhaustive sweeps (g++ and clang++ -std=c+
             {data, length}: an interior or trailing NUL is content); (pointer, length) construction likewise
   release   the four container specialisations over a CBox / CArc pair with recording drop functions: drop() releases the
             instance first and the context last (the order in which Rust drops the fields), forget() releases nothing
+  iterators every int sequence of length 0..=min(L,5) over {0, 1, -1, 7}: a CIterator<int> consumed with range-for through the
+            generated input-iterator class yields exactly the items (a zero item is an item), polling the source once more
+            for the end; a std::vector offered through CPPIterator yields its items and then keeps reporting the end
   callbacks n = 0..=N items x stop position {never, after 1, n/2, n-1, n}: OpaqueCallback<S3> built from a
             std::vector<S3>* collects every offered item in order and never stops the feeder; built from a functor it is
             invoked once per item until the functor returns false
@@ -57,6 +60,7 @@ DRIVER_HEAD = r'''#include <cstdio>
 #include <cstddef>
 #include <string>
 #include <vector>
+#include <iterator>
 #include <type_traits>
 #include "processed.hpp"
 
@@ -158,6 +162,50 @@ static void releases() {
     release_no_ctx<CGlueObjContainer<CBox<void>, void, void> >("box_noctx_notmp");
 }
 
+/* CIterator consumed from C++ through the generated input iterator (range-for), and a std::vector offered to a consumer
+   through CPPIterator: exactly the items of the source, in order, the source polled once more for the end */
+struct IntSrc { const int *cur, *end; int pulls; };
+static int32_t int_src_next(void *p, int *out) {
+    IntSrc *s = (IntSrc *)p;
+    s->pulls++;
+    if (s->cur == s->end) return 1;
+    *out = *s->cur++;
+    return 0;
+}
+static void iterators(int maxlen) {
+    static const int VALS[4] = {0, 1, -1, 7};
+    for (int len = 0; len <= maxlen; len++) {
+        long total = 1;
+        for (int i = 0; i < len; i++) total *= 4;
+        for (long code = 0; code < total; code++) {
+            std::vector<int> items;
+            long c = code;
+            for (int i = 0; i < len; i++) { items.push_back(VALS[c % 4]); c /= 4; }
+            {
+                IntSrc s = { items.data(), items.data() + items.size(), 0 };
+                CIterator<int> it;
+                it.iter = &s;
+                it.func = &int_src_next;
+                std::vector<int> got;
+                for (int v : it) got.push_back(v);
+                bool ok = got == items && s.pulls == (int)items.size() + 1;
+                printf("CASE citer range_for len=%d code=%ld %s got=%zu pulls=%d\n", len, code, ok ? "ok" : "bad", got.size(), s.pulls);
+            }
+            {
+                std::vector<int> src(items);
+                CPPIterator<std::vector<int> > bridge(src);
+                CIterator<int> &ci = bridge;
+                std::vector<int> got;
+                int v = 0, extra = 0;
+                while (got.size() <= items.size() + 2 && ci.func(ci.iter, &v) == 0) got.push_back(v);
+                extra = ci.func(ci.iter, &v) != 0 && ci.func(ci.iter, &v) != 0;
+                bool ok = got == items && extra;
+                printf("CASE citer cpp_iterator len=%d code=%ld %s got=%zu pulls=0\n", len, code, ok ? "ok" : "bad", got.size());
+            }
+        }
+    }
+}
+
 static const unsigned char ALPHA[4] = {0x00, 'a', 0xC3, ' '};
 
 template<typename T> static void strings_for(const char *tname, int maxlen) {
@@ -222,7 +270,7 @@ static void callbacks(size_t nmax) {
     }
 }
 ''')
-    out.append("int main() {\n    layouts();\n    releases();\n    strings_for<char>(\"char\", %d);\n    strings_for<unsigned char>(\"uchar\", %d);\n    callbacks(%d);\n    printf(\"DONE\\n\");\n    return 0;\n}\n" % (L, L, N))
+    out.append("int main() {\n    layouts();\n    releases();\n    iterators(%d);\n    strings_for<char>(\"char\", %d);\n    strings_for<unsigned char>(\"uchar\", %d);\n    callbacks(%d);\n    printf(\"DONE\\n\");\n    return 0;\n}\n" % (min(L, 5), L, L, N))
     return "\n".join(out) + "\n"
 
 
@@ -232,7 +280,14 @@ def run_once(exe, stubdir, workroot, L, N, keep=False):
     os.makedirs(wd)
     try:
         r = H.render(model(), "cpp")
-        res = TL.run_tool(exe, stubdir, wd, r["text"], None)
+        raw = r["text"]
+        # the header model has no iterator argument kind: cbindgen's rendering of the runtime type is added verbatim, so that the
+        # tool bridges it (input iterator class, CPPIterator)
+        anchor = "template<typename T, typename F>\nstruct Callback {"
+        if anchor not in raw:
+            return {"machinery": "rendered header has no Callback struct to place CIterator next to"}
+        raw = raw.replace(anchor, "/**\n * FFI compatible iterator.\n */\ntemplate<typename T>\nstruct CIterator {\n    void *iter;\n    int32_t (*func)(void*, T *out);\n};\n\n" + anchor, 1)
+        res = TL.run_tool(exe, stubdir, wd, raw, None)
         if res["stub_argv"] is None or res["rc"] != 0 or not res["output"]:
             return {"machinery": "cglue-bindgen did not produce a header (rc=%s, stderr=%s)" % (res["rc"], res["stderr"][:300])}
         with open(os.path.join(wd, "processed.hpp"), "w") as f:
@@ -261,7 +316,9 @@ def parse(text):
             continue
         f = ln.split()
         kind = f[1]
-        if kind in ("release", "forget"):
+        if kind == "citer":
+            cases.append({"kind": kind, "key": " ".join(f[1:5]), "ok": f[5] == "ok", "detail": " ".join(f[6:]), "sub": f[2], "len": int(f[3][4:])})
+        elif kind in ("release", "forget"):
             cases.append({"kind": kind, "key": " ".join(f[1:5]), "ok": f[5] == "ok", "detail": " ".join(f[6:])})
         elif kind in ("layout", "maybeuninit"):
             cases.append({"kind": kind, "key": " ".join(f[1:5]), "ok": f[5] == "ok", "detail": " ".join(f[6:])})
@@ -273,6 +330,8 @@ def parse(text):
 
 
 def signature(c):
+    if c["kind"] == "citer":
+        return "cpphelper:iterator:%s" % c["sub"]
     if c["kind"] in ("release", "forget"):
         return "cpphelper:%s_order" % c["kind"]
     if c["kind"] in ("layout", "maybeuninit"):
@@ -328,7 +387,7 @@ def run(prop, tier, replay, Ctx):
                   "container layout for instance {CBox<void>, void*} x context {none, CArc<void>, 1/4/8/12-byte user contexts} x temporary storage {none, 1, 2, 4, 8, 24 bytes, "
                   "16-byte aligned} against the plain struct with the same members (size, alignment, offset of every member) and RustMaybeUninit<X> against X; "
                   "std::string <-> CSliceRef<char|unsigned char> for every byte string of length 0..=%d over {NUL, 'a', 0xC3, ' '} (address, length, bytes); "
-                  "drop() of the four container specialisations releases the instance, then the context; forget() nothing; OpaqueCallback<S3> from a std::vector and from a functor for n = 0..=%d items x 5 stop positions; distinct = distinct (case, outcome)" % (L, N))
+                  "CIterator<int> through the generated input iterator (range-for) and std::vector through CPPIterator for every int sequence up to length min(L, 5) over {0, 1, -1, 7}; drop() of the four container specialisations releases the instance, then the context; forget() nothing; OpaqueCallback<S3> from a std::vector and from a functor for n = 0..=%d items x 5 stop positions; distinct = distinct (case, outcome)" % (L, N))
     if "compile_error" in r:
         rep.record(sec, {"kind": "all"}, None, True, ("cpphelper:compile_error", "the driver using the header's runtime-type templates does not compile:\n" + r["compile_error"][-900:]))
         return ("report", rep.build())
@@ -343,7 +402,7 @@ def run(prop, tier, replay, Ctx):
             v = None
             if not c["ok"]:
                 v = (signature(c), "%s (%s): %s - the C++ declaration does not behave like / is not laid out like the Rust type it stands for (header value/plain-struct value)" % (c["key"], opt, c["detail"]))
-            trivial = (c["kind"] == "string" and c.get("len") == 0) or (c["kind"] == "callback" and c.get("n") == 0)
+            trivial = (c["kind"] in ("string", "citer") and c.get("len") == 0) or (c["kind"] == "callback" and c.get("n") == 0)
             rep.record(sec, case, {"c": c["key"], "d": c["detail"]}, not trivial, v)
         key = [(c["key"], c["ok"], c["detail"]) for c in cases]
         if ref is None:
